@@ -178,6 +178,19 @@ class LockDiscipline:
                 fails.append("`%s`: %s %s happens without holding the object's lock" % (s.op.kind, c.name, [sb.rel(p) for p in ps]))
         if os.path.exists(lock):
             fails.append("`%s` (rc=%d) returned and left the lock file behind" % (s.op.kind, s.res["rc"]))
+        # the model's locked operation reads the object's staged state once it holds the lock (C13_serializable rests on it)
+        held = False
+        inv = os.path.join(sd, "inventory.json")
+        for c in s.res["calls"]:
+            if c.paths and c.paths[0] == lock:
+                if c.kind == "create" and not c.err:
+                    held = True
+                elif c.kind == "unlink":
+                    held = False
+                continue
+            if c.kind == "read" and not c.err and c.paths and c.paths[0] == inv and not held:
+                fails.append("`%s`: the staged inventory is read without holding the object's lock" % s.op.kind)
+                break
         return fails
 
     def lean_lines(self, s):
